@@ -27,6 +27,13 @@ RESULT. The builders panic on a block WITHOUT transactions, and only there:
   the tree arithmetic is exact for `n ≤ 2^31` (`builder_tree_arith`; `builder_width_wraps`: at `2^31 + 1`
   the width at height 31 is computed as 0), the flag loop runs to `uint32(len(bits))` and we know
   `len(bits) ≤ 2n + 30`. The wire limit on the transaction count is 2 098 360 (`Merkle.maxTxnCount`).
+* ONE step of the Go code is not in the transcription: the message's `Hashes` are filled through
+  `msgMerkleBlock.AddTxHash`, which REFUSES (its error is dropped by the builders) once the message holds
+  `wire`'s `maxTxPerBlock()` hashes — `ebs/10 + 1` = 12 800 001 with the default block size setting, a mutable
+  process-wide value (`wire.SetLimits`). The transcription returns `finalHashes` as they are. So the `*_eq_model` /
+  `builder_alloc` statements describe the Go result for blocks of at most `maxTxPerBlock()` matched-tree hashes — which
+  covers every block within the wire limit of 2 098 360 transactions under the default setting; above that (or after
+  `SetLimits` with a small size) Go silently truncates `Hashes`. `builder_no_fault` is unaffected.
 * `builder_eq_model`, `builder_eq_buildMsg`, `builder_txnset_eq_model`, `builder_NewMerkleBlock_eq_model`: the
   returned value is that of the value-level models, so the C11 theorems speak about what the code returns; the
   default hash with which the models are totalised is never used (the statements hold for every `dflt`).
